@@ -155,6 +155,55 @@ func classify(prog *chain.Program, faults []chain.Fault) (nontrivial []string) {
 	return
 }
 
+// genForward: the handler of /x performs some writer ops and then forwards the same context to /y
+// (Router.HandleContext, an internal redirect); /y is served by a chain of 1-3 handlers. It is still ONE request:
+// one header commit, the status recorded before the forward counts unless /y sets another one.
+func genForward(t *rapid.T, w *chain.World) (*chain.Program, []chain.Fault) {
+	var pre []chain.Op
+	for i, k := 0, rapid.IntRange(0, 4).Draw(t, "npre"); i < k; i++ {
+		pre = append(pre, genOp(t))
+	}
+	pre = append(pre, chain.Op{K: chain.OpForward, S2: "/y"})
+	x := &chain.Stmt{Kind: "route", Path: "/x", Methods: []string{"GET"}, Main: w.NewScript("fwd", pre...)}
+	n := rapid.IntRange(1, 3).Draw(t, "ninner")
+	hs := make([]*chain.Script, n)
+	for i := range hs {
+		var ops []chain.Op
+		for j, k := 0, rapid.IntRange(0, 3).Draw(t, "nops"); j < k; j++ {
+			ops = append(ops, genOp(t))
+		}
+		if i < n-1 {
+			at := rapid.IntRange(0, len(ops)).Draw(t, "nextAt")
+			ops = append(append(append([]chain.Op{}, ops[:at]...), chain.Op{K: chain.OpNext}), ops[at:]...)
+		}
+		hs[i] = w.NewScript("y", ops...)
+	}
+	y := &chain.Stmt{Kind: "route", Path: "/y", Methods: []string{"GET"}, Main: hs[n-1], Variadic: hs[:n-1]}
+	var faults []chain.Fault
+	if rapid.IntRange(0, 3).Draw(t, "faulty") == 0 {
+		faults = append(faults, chain.Fault{Write: rapid.IntRange(0, 3).Draw(t, "faultAt"), Accept: rapid.IntRange(0, 3).Draw(t, "accept")})
+	}
+	return &chain.Program{Opts: model.Options{}, Body: []*chain.Stmt{x, y}}, faults
+}
+
+func propForward(t *rapid.T) {
+	ev.Case()
+	w := chain.NewWorld()
+	prog, faults := genForward(t, w)
+	pm := prog.Model()
+	pm.EnableForward()
+	r := prog.Apply(w)
+	ev.Eval()
+	msg, _ := chain.CheckRequest(w, r, pm, "GET", "/x", faults...)
+	ev.Class("forwarded-request")
+	ev.NonTrivial("fwd"+prog.Scripts()+fmt.Sprint(faults), func() string { return fmt.Sprintf("faults=%v chain:\n%s", faults, prog.Scripts()) })
+	if msg != "" {
+		t.Fatalf("%s\nfaults=%v\nscripts:\n%s", msg, faults, prog.Scripts())
+	}
+}
+
+func TestPropForward(t *testing.T) { rapid.Check(t, propForward) }
+
 func prop(t *rapid.T) {
 	ev.Case()
 	w := chain.NewWorld()
